@@ -43,6 +43,19 @@ fn same_mod(a: &Joints, b: &Joints) -> bool {
     joints_close_mod2pi(a, b, 1e-9)
 }
 
+/// Two answers of a stack are the same solution when the wrapped robot's joint vectors agree modulo 2*pi.
+/// (With a non-integer coupling the outer coupled angle depends on which 2*pi representative of the driven
+/// joint was returned, and that legitimately differs between a CONSTRAINT_CENTERED reference of centres and of zeros.)
+fn same_solution(st: &StackDesc, a: &Joints, b: &Joints) -> bool {
+    same_mod(&st.inner_joints(a), &st.inner_joints(b))
+}
+
+/// Recovered wrist-singular answers come from micro-shifted solves: which shift delivers the accepted candidate
+/// may differ between the constrained and the unconstrained robot, and candidates differ at the 1e-7 level.
+fn same_singular_solution(st: &StackDesc, a: &Joints, b: &Joints) -> bool {
+    joints_close_mod2pi(&st.inner_joints(a), &st.inner_joints(b), 2e-6)
+}
+
 pub fn eval(c: &Case) -> (Vec<(String, String)>, String) {
     let mut fails = Vec::new();
     let lim = c.stack.limits.expect("C08 cases carry limits");
@@ -87,7 +100,7 @@ pub fn eval(c: &Case) -> (Vec<(String, String)>, String) {
     // every returned vector satisfies the limits (limits apply to the wrapped robot's joint vector)
     for s in &got {
         let inner = c.stack.inner_joints(s);
-        if arc_member6(&lim.from, &lim.to, &inner, 1e-9) == ArcVerdict::Outside {
+        if arc_member6(&lim.from, &lim.to, &inner, 1e-5) == ArcVerdict::Outside {
             fails.push((
                 format!("C08/returns-noncompliant/{tag}"),
                 format!("answer {s:?} (inner {inner:?}) violates limits from {:?} to {:?} [{shape}]", lim.from, lim.to),
@@ -96,7 +109,7 @@ pub fn eval(c: &Case) -> (Vec<(String, String)>, String) {
         if sentinel && singular(s) {
             continue; // the recovered split of J4/J6 legitimately depends on the constraint centres
         }
-        if !all.iter().any(|u| same_mod(u, s)) {
+        if !all.iter().any(|u| same_solution(&c.stack, u, s) || (singular(s) && same_singular_solution(&c.stack, u, s))) {
             fails.push((
                 format!("C08/answer-not-in-unconstrained-set/{tag}"),
                 format!("answer {s:?} is not among the {} answers of the same stack without limits [{shape}]", all.len()),
@@ -109,7 +122,7 @@ pub fn eval(c: &Case) -> (Vec<(String, String)>, String) {
             continue;
         }
         let inner = c.stack.inner_joints(u);
-        if arc_member6(&lim.from, &lim.to, &inner, 1e-9) == ArcVerdict::Inside && !got.iter().any(|s| same_mod(u, s)) {
+        if arc_member6(&lim.from, &lim.to, &inner, 1e-5) == ArcVerdict::Inside && !got.iter().any(|s| same_solution(&c.stack, u, s) || (singular(u) && same_singular_solution(&c.stack, u, s))) {
             fails.push((
                 format!("C08/compliant-answer-dropped/{tag}"),
                 format!("unconstrained answer {u:?} satisfies the limits but is missing ({} of {} returned) [{shape}]", got.len(), all.len()),
@@ -123,6 +136,14 @@ fn wrap_alphabet() -> Vec<Wrap> {
     let g = Iso::new(mmul(&rotx(0.4), &mmul(&roty(-0.9), &rotz(1.3))), [0.2, -0.1, 0.3]);
     let axial = Iso::new(rotz(0.8), [0.0, 0.0, 0.2]);
     vec![Wrap::Tool(axial), Wrap::Base(g), Wrap::Frame(axial), Wrap::Para { driven: 1, coupled: 2, scaling: 1.0 }]
+}
+
+fn wrap_alphabet_thorough() -> Vec<Wrap> {
+    let g = Iso::new(mmul(&rotx(0.4), &mmul(&roty(-0.9), &rotz(1.3))), [0.2, -0.1, 0.3]);
+    let mut v = wrap_alphabet();
+    v.push(Wrap::Para { driven: 0, coupled: 5, scaling: -0.5 });
+    v.push(Wrap::Tool(g));
+    v
 }
 
 /// Explicit search over stacks: breadth-first, every wrapper sequence up to `depth`.
@@ -178,7 +199,7 @@ fn limit_sets(q_inner: &Joints, weights: &[f64]) -> Vec<Limits> {
 
 pub fn run(ctx: &Ctx) -> Report {
     let thorough = !ctx.quick();
-    let stacks = all_stacks(3, &wrap_alphabet());
+    let stacks = all_stacks(3, &if thorough { wrap_alphabet_thorough() } else { wrap_alphabet() });
     let mut stacks = stacks;
     if !thorough {
         // a few depth-3 stacks in the quick tier as well
@@ -190,7 +211,7 @@ pub fn run(ctx: &Ctx) -> Report {
     }
     let all_r = robot_axis(0, &[6, 5]);
     let robots: Vec<Parameters> = if thorough {
-        all_r.iter().step_by(3).cloned().collect()
+        all_r.iter().step_by(2).cloned().collect()
     } else {
         let n = all_r.len() / 2;
         vec![all_r[1], all_r[8], all_r[17], all_r[n + 1], all_r[n + 9], all_r[all_r.len() - 3]]
